@@ -7,6 +7,10 @@ import (
 
 const maxEntries = 128
 
+// the maximum length of an interval; lookups are for packets at most 8192
+// behind, and must be well below 2^15
+const maxCount = 16384
+
 type Map struct {
 	mu        sync.Mutex
 	next      uint16
@@ -87,7 +91,14 @@ func addMapping(m *Map, seqno, delta, pidDelta uint16) {
 
 	i := m.lastEntry
 	if delta == m.entries[i].delta && pidDelta == m.entries[i].pidDelta {
-		m.entries[m.lastEntry].count = seqno - m.entries[i].first + 1
+		count := seqno - m.entries[i].first + 1
+		if count == 0 || count > maxCount {
+			// keep the interval short enough for comparisons
+			// modulo 2^16 to be meaningful
+			m.entries[i].first = seqno - maxCount + 1
+			count = maxCount
+		}
+		m.entries[m.lastEntry].count = count
 		return
 	}
 
